@@ -11,8 +11,17 @@
              flags re-read from the source), the restored value (unmarshal o marshal), its
              deletion stamps, the replayed value, the final value; validate / crash verdicts.
    spec_ok : Spec.handle_spec / Spec.raw_spec on the observations alone.
+   CPersist: one snapshot attempt under planted write faults: FSM.Snapshot, (further commands,)
+          the REAL storeFSMSnapshot.Persist into a sink whose Write / Close fail as planted
+          ([store] 0: an in-memory sink with FileSnapshotSink's Close/Cancel protocol, 1: a real
+          raft.FileSnapshotStore in a temp directory behind a fault-injecting wrapper), then
+          raft's epilogue (Cancel on error, else Close).  The case carries the calls seen at
+          the sink, what Persist returned, whether the store showed the snapshot as committed,
+          its bytes, and what Restore makes of them.
+          agree = Persist.take_snapshot reproduces trace, result, commit state, bytes, and
+          Model.unmarshal o marshal the restored value; spec_ok = PersistSpec.persist_spec.
    result code: 0 agree/spec holds, 1 differ/spec holds, 2 differ/spec fails, 3 agree/spec fails *)
-From Verif Require Export C06.Model C06.Eqb C07.Model C07.Spec.
+From Verif Require Export C06.Model C06.Eqb C07.Model C07.Spec C07.Persist C07.PersistSpec.
 From VerifGen Require Import Consts.
 Open Scope N_scope.
 
@@ -52,7 +61,11 @@ Inductive case :=
 | CSoak (auto : bool) (s0 : data) (steps : list (N * N * cmd)) (finals : list data)
 (* both tiers: a membership scenario (join / remove / leave + re-join) on real meta services;
    [steps] includes the CreateMetaNode / DeleteMetaNode commands proposed by join and remove *)
-| CMember (s0 : data) (steps : list (N * N * cmd)) (acked : list string) (finals : list data).
+| CMember (s0 : data) (steps : list (N * N * cmd)) (acked : list string) (finals : list data)
+(* a snapshot attempt under planted faults; see the head of the file and PersistSpec.v *)
+| CPersist (store : N) (prior : bool) (wfl : list (option N)) (cf : bool)
+           (image : list N) (trace : list call) (err c1 c2 : bool) (held : list N)
+           (taken : data) (st_t : list (N * Z)) (restored : option (data * list (N * Z))) (newest : N).
 
 (* the commands of a schedule, in order *)
 Fixpoint applies (evs : list sev) : list entry :=
@@ -111,6 +124,14 @@ Definition env_of (ok : bool) (ty : Z) (exts : list (N * N)) : envelope :=
 
 Definition is_crash (o : outcome) : bool := match o with Crash => true | _ => false end.
 
+Definition call_eqb (a b : call) : bool :=
+  match a, b with
+  | KWrite l n e, KWrite l' n' e' => (l =? l') && (n =? n') && Bool.eqb e e'
+  | KClose e, KClose e' => Bool.eqb e e'
+  | KCancel, KCancel => true
+  | _, _ => false
+  end.
+
 Definition check_case (c : case) : N :=
   match c with
   | CSnap auto evs final =>
@@ -136,6 +157,20 @@ Definition check_case (c : case) : N :=
       let last := fold_left (fun a (s : N * N * cmd) => N.max a (fst (fst s))) steps 0 in
       code (forallb (fun f => data_sim (canon f) (canon m)) finals)
            (member_spec s0 last acked finals)
+  | CPersist store prior wfl cf image trace err c1 c2 held taken st_t restored newest =>
+      let r1 := persist_to (Some image) (fresh_sink wfl cf) in
+      let r2 := take_snapshot (Some image) (fresh_sink wfl cf) in
+      let s2 := fst (fst r2) in
+      let img := marshal (stamp_fun st_t) taken in
+      code (list_eqb call_eqb trace (snd (fst r2)) && Bool.eqb err (snd r1) &&
+            Bool.eqb c1 (committed (fst (fst r1))) && Bool.eqb c2 (committed s2) &&
+            (if (store =? 0) || c2 then list_eqb N.eqb held (sk_buf s2) else true) &&
+            (newest =? newest_after prior s2) &&
+            match restored with
+            | Some (r, st) => committed s2 && data_sim r (unmarshal img) && stamps_sim st (pdata_stamps img)
+            | None => negb (committed s2)
+            end)
+           (persist_spec (PF (trace_faulted trace) image err c1 c2 held taken st_t restored prior newest))
   end.
 
 (* frequent strings of the harness' name pools (the harness prints z<i>) *)
